@@ -512,11 +512,11 @@ func (g *gmectx) errorInfeasible(r *ssa.Return, firstEffect ssa.Instruction, isE
 		if !cs.Seen("empty") {
 			return false, fname(callee) + " does not test its list for emptiness"
 		}
-		for _, cr := range returnsOf(callee) {
-			if nilErr, _ := allOrigins(cr.Results[len(cr.Results)-1], isConstNilOrigin); nilErr {
+		for _, cr := range cs.VirtualReturns() {
+			if nilErr, _ := allOrigins(cr.Vals[len(cr.Vals)-1], isConstNilOrigin); nilErr {
 				continue
 			}
-			if imp, _ := cs.Implies(cs.Reach(cr), cs.Atom("empty")); !imp {
+			if imp, _ := cs.Implies(cr.Cond, cs.Atom("empty")); !imp {
 				return false, fname(callee) + " can fail for a non-empty list"
 			}
 		}
